@@ -39,7 +39,7 @@ func checkC20(c *vkit.Ctx) {
 
 func runC20(c *vkit.Ctx, lab *Lab, r *rand.Rand, i int) {
 	lab.Wipe()
-	lc := lab.Gen(r, LabOpts{Skips: true, Counts: true, Parallel: true, Fuzz: true})
+	lc := lab.Gen(r, LabOpts{Skips: true, Counts: true, Parallel: true, Fuzz: true, Bench: true})
 	lc.Run = ""
 	if lc.Count > 3 {
 		lc.Count = 3
@@ -99,7 +99,7 @@ func runC20(c *vkit.Ctx, lab *Lab, r *rand.Rand, i int) {
 	// ordinals only have to be consumed exactly once each - outcomes are tallied, not predicted.
 	os.MkdirAll(lab.AbsDir, 0o755)
 	os.WriteFile(filepath.Join(lab.AbsDir, "blocker.txt"), []byte("a regular file where a directory is wanted"), 0o644)
-	opt := RunOpt{PkgDir: lab.PkgDir, Scenario: lc.withSkips(), Count: lc.Count, Extra: lc.Flags, Update: lc.Update, CI: lc.CI}
+	opt := RunOpt{PkgDir: lab.PkgDir, Scenario: lc.withSkips(), Run: lc.Run, Count: lc.Count, Extra: lc.RunnerFlags(), Update: lc.Update, CI: lc.CI}
 	if r.IntN(8) == 0 && !lc.CI && (lc.Update == "clean" || lc.Update == "true") {
 		// every unlink of the child fails (as on an immutable or read-only directory): what Clean
 		// judges obsolete is still what the summary has to show
